@@ -4,12 +4,13 @@ from . import kani
 def main():
     unit, inject = sys.argv[1], sys.argv[2]
     only = sys.argv[3:]
-    g = {"unit": unit, "inject": inject, "crate": "elvis-core"}
+    crate = "elvis" if inject.startswith("elvis/") else "elvis-core"
+    g = {"unit": unit, "inject": inject, "crate": crate}
     with kani.Scratch([g]) as sc:
         for h in kani.parse_harnesses(unit):
             if h["kind"] != "witness" or (only and h["harness"] not in only):
                 continue
-            h["crate"] = "elvis-core"
+            h["crate"] = crate
             failed, out = kani.replay_on_real_code(sc, h, "")
             print("=====", h["harness"], "FAILS on the real code" if failed else "passes")
             print("\n".join(l for l in out.split("\n") if "panicked" in l or "assertion" in l or "left:" in l or "right:" in l or "test result" in l or "error" in l.lower())[:1500])
